@@ -440,10 +440,66 @@ _pp("C31", "pipe_render", "4.11", "Render stage guard: for each of the 18 theme 
     _gen_render + "Non-trivial: every diagram.", "Theme table guard: observed[code] = IF code in overrides THEN override ELSE catalog[theme][code].", ["colours are read from the .fill-XX rules of the embedded stylesheet; inline colours are not inspected", "catalog colours are read from d2themescatalog (the table being checked against is the code's own catalog)"])
 
 
+# ---------------------------------------------------------------------------------- oracle (C36 - C41)
+def corrupt_oracle(lines, pid):
+    for e in lines:
+        if e.get("ev") != "edit" or e.get("ok") != 1:
+            continue
+        op = e["op"]
+        if pid == "C36":
+            e["fmtFixed"] = 0
+            return "formatter-fixed-point flag cleared"
+        if pid == "C37" and op in ("set-label", "set-shape", "set-style") and e["after"]["objs"]:
+            for o in e["after"]["objs"]:
+                if o["lab"] != e["target"]:
+                    o["shape"] = "hexagon" if o["shape"] != "hexagon" else "oval"
+                    return "shape of an untouched object changed after a Set"
+        if pid == "C38" and op == "delete" and e["after"]["objs"]:
+            e["after"]["objs"].pop()
+            return "one more object removed by a Delete"
+        if pid == "C39" and op in ("rename", "move") and e["after"]["edges"]:
+            e["after"]["edges"][0]["src"] = "T999"
+            return "a connection re-attached by a Rename/Move"
+        if pid == "C40" and e.get("hasDeltas") == 1 and e["after"]["objs"]:
+            e["deltas"].append([e["before"]["objs"][0]["id"], "zzz"])
+            return "a bogus ID delta added"
+        if pid == "C41" and e.get("boardsBefore"):
+            for bb in e["boardsBefore"]:
+                if bb[2] == "other":
+                    bb[1] += "#"
+                    return "digest of an unrelated board changed"
+    return None
+
+
+FAMILIES["oracle"] = dict(vdrive="oracle", trace_module="TraceD2Oracle", trace_cfg="TraceD2Oracle.cfg", corrupt=corrupt_oracle, engine="TraceD2Oracle", args={"n": "300"}, chunk=1500, heap="4g")
+FAMILIES["oracle_boards"] = dict(vdrive="oracle", trace_module="TraceD2Oracle", trace_cfg="TraceD2Oracle.cfg", corrupt=corrupt_oracle, engine="TraceD2Oracle", args={"n": "300", "boards": "1"}, chunk=1500, heap="4g")
+_or_rule = ("the history space is FIXED: history #i starts from the program generated from seed i (2-7 objects to depth 3, each with a unique tooltip as identity, labels, shapes, opacity/stroke/width/link, up to 4 labelled connections incl. self loops) "
+            "and applies 1 + i mod 8 edits drawn from create object / create connection / set label (25 tricky values: keywords in any case, strings needing quotes, numbers, empty, unicode) / set style / set shape / set connection style / "
+            "delete object / delete connection / delete attribute / rename (fresh, colliding, tricky names) / move (into, out of, to a fresh container; with and without descendants) / reconnect; every object or connection an edit creates is tagged with an identity before the next edit. "
+            "3000 histories; quick takes the 300 that VERIF_SEED selects. Non-trivial: ")
+_or_assume = ["identity of an object = its tooltip, of a connection = its label; IDs are derived data", "a refused edit may leave the graph it was given modified; the harness continues from a fresh compile of the last good text",
+              "Delete of an attribute is exercised for the attributes d2oracle handles (style keywords, width, link); shape and label keys are silently ignored by Delete and are not exercised"]
+for _pid, _nt, _txt, _tech in [
+    ("C36", "at least one successful edit", "Post-condition of every successful edit.", "every successful edit's text is re-compiled and re-formatted; TLC checks compiles / equals the returned graph / formatter fixed point"),
+    ("C37", "a successful create or set", "Effect and frame condition of Create and Set on the identity-keyed graph.", "TLC evaluates effect + frame condition of Create/Set on the identity-keyed before/after snapshots of the real call"),
+    ("C38", "a successful delete", "Effect and frame condition of Delete.", "TLC evaluates effect (target and attached connections gone, children hoisted, later parallel connections renumbered, attribute reset) + frame condition of Delete on the snapshots"),
+    ("C39", "a successful rename or move", "Effect and frame condition of Rename, Move and ReconnectEdge.", "TLC evaluates that all identities survive with their content, only the moved object (and descendants when requested) change ID, connections keep their end identities"),
+    ("C40", "a successful edit whose ID deltas were queried beforehand", "Agreement of the *IDDeltas predictions with the edit.", "the delta map is queried before the edit; TLC checks id_after = delta(id_before) for every surviving identity and no delta for a removed one")]:
+    PROPS[_pid] = dict(family="oracle", level="model_checking", design_ref="4.5", technique=_tech, rule=_or_rule + _nt + ".", exhaustive=dict(quick=False, thorough=True),
+                       assumptions=_or_assume, text=_txt + " One action per public API call in TraceD2Oracle.tla; the state space explored is the set of recorded histories (no separate base model).",
+                       note="Trusted: TLC, Json module, the snapshot code in harness/cmd/vdrive/oracle.go.")
+PROPS["C41"] = dict(family="oracle_boards", level="model_checking", design_ref="4.5",
+                    technique="edits addressed to the root, layers l1/l2, scenarios s1/s2 and steps s1/1, s1/2; TLC checks that every board that neither is nor inherits from the addressed board keeps its projection digest, for successful and refused edits",
+                    rule=_or_rule.replace("applies 1 + i mod 8 edits", "adds two layers, two scenarios and two steps, then applies 1 + i mod 8 edits, each addressed to a random board,") + "an edit was attempted.",
+                    exhaustive=dict(quick=False, thorough=True), assumptions=_or_assume + ["heirs of a board: boards nested in it and, for a step, the other steps of the same parent"],
+                    text="Board frame condition of every edit, whether it succeeds or is refused.", note="Trusted: TLC, Json module, the snapshot/digest code in the harness.")
+
+
 # ------------------------------------------------------------------------------- manifest data
 HOOK_COMMITS = ["9d004ebd4", "879b5d739"]
 
 ENGINES = {
+    "TraceD2Oracle": dict(path="specs/TraceD2Oracle.tla", kind="TLA+ action system of the d2oracle API over an identity-keyed graph (effects + frame conditions), evaluated by TLC on before/after snapshots of real edit histories"),
     "TracePipeline": dict(path="specs/TracePipeline.tla", kind="TLA+ stage machine of the tool chain whose per-stage guards are the properties; TLC evaluates them on the facts logged from the real stages for a fixed generated input space"),
     "TraceD2IR": dict(path="specs/D2IR.tla, specs/TraceD2IR.tla, specs/ir_alphabet.json", kind="TLA+ reference interpreter of the D2 core fragment (TLC, all programs within bound) + TLC comparison of every compiled program prefix with the model state"),
     "TraceImgBundle": dict(path="specs/ImgBundle.tla, specs/TraceImgBundle.tla", kind="TLA+ model of imgbundler.runWorkers (TLC, all interleavings x failure subsets) + TLC validation of real runs with imposed completion orders"),
